@@ -2,7 +2,7 @@ SPECIFICATION Spec
 INVARIANT Inv
 CHECK_DEADLOCK FALSE
 CONSTANTS
-  MaxLen = 6
+  MaxLen = 5
   Prefix <- PVars
   Suffix <- SVars
   Alphabet = {"$", "n1", ":", "[", "]", "!", "=", "int", "@", "{", "}"}
